@@ -593,6 +593,50 @@ for k, (lit, got) in enumerate(err_cases):
         chk.violation("error-branch", f"error behaviour differs from the model: impl={got}, model error={k not in fails}",
                       {"correspondence": "Model.Fermat.solve_pure = None", "path": [lit[0], lit[1]]}, failing_input_found=False)
 
+# ---- very large interior set: the optimal crossing point has an index above 2^15 ----------
+# (spec predicates only: the reported indices must realise the reported, brute-force-minimal times)
+for nbig in ((40000,) if Q else (40000, 66000)):
+    xs = np.linspace(-1.0, 1.0, nbig)
+    big_cloud = {0: np.array([[0.9, 0.0, -1.0], [0.95, 0.0, -1.5]]),
+                 1: np.stack([xs, np.zeros(nbig), np.zeros(nbig)], axis=1),
+                 2: np.array([[0.97, 0.0, 2.0], [0.8, 0.0, 1.0], [0.99, 0.0, 0.5]])}
+    lit = (0, [(1.0, 1), (2.0, 2)])
+    r = impl_solve(big_cloud, [lit])[0]
+    evaluations += 1
+    chk.count(boundary=f"interior-set-of-{nbig}-points")
+    nontrivial.add(("bigset", nbig))
+    bad = spec_check(big_cloud, lit, np.asarray(r.times), np.asarray(r.indices), 1e-12)
+    if bad:
+        chk.violation("large-set", f"ray tracing through a set of {nbig} points violates {bad}",
+                      {"set_sizes": [2, nbig, 3], "violations": bad, "indices": np.asarray(r.indices),
+                       "times": np.asarray(r.times), "note": "interior set = linspace(-1,1,n) on the x axis"})
+
+# ---- history: a Path traced, then modified (velocity / mode), then traced again -------------
+# must give what a freshly built path gives
+for trial in range(4 if Q else 30):
+    cloud, group, dy, info = gen_group(False, 6, maxlegs=3)
+    paths = make_arim_paths(cloud, group[:1])
+    p0 = paths[0]
+    ray.ray_tracing_for_paths(paths)
+    first = np.array(p0.rays.times)
+    # change the velocity of the first leg's material in place
+    m0 = p0.materials[0]
+    old = m0.longitudinal_vel
+    m0.longitudinal_vel = old * 1.37
+    m0.transverse_vel = m0.transverse_vel * 1.37 if m0.transverse_vel is not None else None
+    ray.ray_tracing_for_paths(paths)
+    second = np.array(p0.rays.times)
+    fresh = arim.Path(p0.interfaces, p0.materials, p0.modes, name="fresh")
+    ray.ray_tracing_for_paths([fresh])
+    evaluations += 1
+    chk.count(boundary="retrace-after-velocity-change")
+    nontrivial.add(("retrace", trial))
+    if not np.array_equal(second, np.asarray(fresh.rays.times)):
+        chk.violation("retrace", "tracing a path again after its material velocity changed does not give the result of a fresh path",
+                      {"points": {k: v.tolist() for k, v in cloud.items()}, "path": [group[0][0], group[0][1]],
+                       "times_first": first, "times_second": second, "times_fresh_path": np.asarray(fresh.rays.times)})
+    m0.longitudinal_vel = old
+
 # ---- run the model inside coqc -------------------------------------------------
 for name, cases, shard in (("cases_small", coq_small, 60), ("cases_big", coq_big, 3)):
     if not cases:
